@@ -222,6 +222,7 @@ def mutate_value(
         return old_value.__wrapped__ if isinstance(old_value, Proxy) else old_value
 
     mutate_safe = inplace
+    private = False  # whether `value` is a copy/new object that only we hold
     used_attrs = set()
 
     # If `new_value` is not `MISSING`, use it; otherwise use `old_value` if not
@@ -263,6 +264,7 @@ def mutate_value(
     # found in the constructor will be assigned later.
     elif value is MISSING and constructor is not None:
         mutate_safe = True
+        private = True
         while hasattr(constructor, "__origin__"):
             constructor = constructor.__origin__
         if attrs:
@@ -283,7 +285,10 @@ def mutate_value(
         if not mutate_safe:
             value = protect_via_deepcopy(value)
             mutate_safe = True
-        with _restore_attrs_on_error(value, only_if=inplace):
+            private = True
+        with _restore_attrs_on_error(value, only_if=inplace), unfrozen(
+            value, only_if=private
+        ):
             for attr, attr_value in attrs.items():
                 if attr in used_attrs:
                     continue
@@ -300,13 +305,38 @@ def mutate_value(
     if attr_transforms:
         if not mutate_safe:
             value = protect_via_deepcopy(value)
-        with _restore_attrs_on_error(value, only_if=inplace):
+            private = True
+        with _restore_attrs_on_error(value, only_if=inplace), unfrozen(
+            value, only_if=private
+        ):
             for attr, attr_transform in attr_transforms.items():
                 transformed_value = attr_transform(getattr(value, attr, MISSING))
                 if transformed_value is not MISSING:
                     setattr(value, attr, transformed_value)
 
     return value
+
+
+@contextlib.contextmanager
+def unfrozen(obj: Any, only_if: bool = True):
+    """
+    Temporarily lift the frozen guard of `obj`, which must be a private copy
+    that has not been handed to anyone yet (the same window that `__init__`
+    uses). This is what lets copy-on-write helpers evolve frozen instances.
+    """
+    metadata = getattr(obj, "__spec_class__", None) if only_if else None
+    lift = bool(
+        metadata
+        and metadata.frozen
+        and "__spec_class_initializing__" not in getattr(obj, "__dict__", {})
+    )
+    if lift:
+        obj.__dict__["__spec_class_initializing__"] = True
+    try:
+        yield obj
+    finally:
+        if lift:
+            obj.__dict__.pop("__spec_class_initializing__", None)
 
 
 @contextlib.contextmanager
